@@ -32,7 +32,8 @@ CONSTANTS FitType,        \* "xy" | "indexed" | "hist" | "unbinned"
           GCostNoErr, GCostCov, GCostPoint,           \* cost node names ("-" if the type has none)
           GInitCost,      \* node minimised by a freshly constructed fit
           NData,          \* data set -> number of data points
-          SrcNames, ConNames, Dea, MaxSources, MaxDepth, Off, Faults
+          SrcNames, ConNames, Dea, MaxSources, MaxDepth, Off, Faults,
+          ObsFilter        \* {} = every observable may be read; otherwise only these (keeps targeted configurations small)
 
 VARIABLES stale, frozen, dirty,            \* per node
           costNode, implicitNoErr,
@@ -253,7 +254,7 @@ PlainObs == {"model", "data", "data_error", "data_cov", "model_error", "model_co
              "did_fit", "has_errors", "result", "fixed", "limited"} \cup (IF FitType = "xy" THEN {"x_total_error"} ELSE {})
 
 Read(o) ==
-  /\ Bounded("Read") /\ o \in GraphObs \cup PlainObs
+  /\ Bounded("Read") /\ o \in GraphObs \cup PlainObs /\ (ObsFilter = {} \/ o \in ObsFilter)
   /\ o \in {"cost", "gof", "chi2p", "result", "total_inv"} => WellPosed
   /\ LET S == FoldLeft(LAMBDA T, n : Val(n, T, frozen), [st |-> stale, di |-> dirty], SetToSeq(ObsNodes(o)))
      IN /\ stale' = S.st /\ dirty' = S.di
